@@ -21,6 +21,9 @@ def cases(rng, quick, gr):
     for i in range(60 if quick else 2000):
         text, _ = tdm_script(rng, with_params=(i % 4 == 0), with_loop=(i % 3 == 0))
         yield {"tag": "tdm", "text": text}
+    # program types that merely resemble tdm (other case, longer names): p-named arrays are ordinary arrays there, passed by value
+    for ty in ["TDM", "Tdm", "tdM", "tdmx", "xtdm", "t_dm", "tdm2"]:
+        yield {"tag": "near-tdm-type", "text": "name t\nversion 1.0\ntype %s (temporal_modes=2)\nfloat array p0 =\n    0.1, 0.2\nint m = 3\nRgate(p0) | 0\nBSgate(theta=p0, phi=m, l=[p0, 1]) | [0, 1]\nfor int i in 0:2\n    Sgate(p0, i) | i\n" % ty}
     # statement forms x bracket styles x argument shapes (small exhaustive matrix)
     hdr = "name m\nversion 1.0\n"
     forms = []
